@@ -318,6 +318,19 @@ pub fn run_random(out_path: &str, n: usize) {
 			"pubSrc": rng.pick(&["keypair", "keypair", "spki", "csr"]), "hash2": []});
 		run_case(&c, i, seed, &mut pool, &mut out);
 	}
+	// value-dependent signature encodings: many different to-be-signed contents under local RSA keys of each
+	// hash (a PKCS#1 v1.5 signature begins with a zero octet for about one content in 256)
+	for (ai, alg) in ["rsa-sha256", "rsa-sha384", "rsa-sha512"].iter().enumerate() {
+		let per = (n / 5).max(100);
+		for i in 0..per {
+			let mut p = base_params_desc();
+			p["dn"] = json!([{"ty": "2.5.4.3", "kind": "utf8", "val": crate::der::hex(format!("rsa sweep {}", i).as_bytes())}]);
+			p["serial"] = json!({"k": "given", "b": [(i >> 8) as u8, i as u8, ai as u8]});
+			let c = json!({"grp": "rsa-sweep", "_id": format!("rsa-sweep/{}/{}/{}", seed, alg, i), "params": p, "self": true, "subjAlg": alg, "signAlg": alg,
+				"subjVia": "pkcs8-explicit", "issuerKid": {"k": "sha256", "b": []}, "issuerDn": [], "pubSrc": "keypair", "hash2": []});
+			run_case(&c, i, seed, &mut pool, &mut out);
+		}
+	}
 	out.finish();
 }
 
